@@ -52,7 +52,7 @@ def main():
     R.assumptions = ["the FlatBuffers Builder stand-in (vf/shims/flatbuffers) lays bytes out as the format specifies; it is cross-checked "
                      "against the independent reader on a hand-built message at the start of every worker",
                      "the optional 'zkif' file identifier is not demanded"]
-    req = ["programs_validated", "comparisons", "byte_identical_pairs", "hostile_values_seen", "scripts_validated"]
+    req = ["programs_validated", "comparisons", "byte_identical_pairs", "hostile_values_seen", "scripts_validated", "validated_after_field_switch"]
     req += ["programs_validated:" + be for be in FIELDS]
     return R.finish(require_counters=req)
 
@@ -223,6 +223,29 @@ def worker(job):
         R.count("programs_validated:" + be)
         R.case(cell="%s|%s|%s" % (be, klass, "+".join(sorted(classes)) or "plain"), key=(be, src, tuple(inputs)))
         R.sample(dict(backend=be, src=src, inputs=inputs, classes=sorted(classes), constraints=len(snap["constraints"])), cap=3)
+    # state that survives: prove twice with more tracing in between; then switch the field in this interpreter
+    # (what importing a derived backend after the base one amounts to) and write again
+    if hasattr(rt.backend, "set_modulus"):
+        from pysnark.runtime import PrivVal, PubVal
+        for q in [p] + [v for v in FIELDS.values() if v != p] + [p]:
+            rt.backend.set_modulus(q)
+            src, inputs = realrun.hostile_program(rnd, q)
+            out = realrun.run_src(rt, src, inputs, 16, 8)
+            if out.exc is not None:
+                continue
+            for rep in range(2):
+                if rep:
+                    (PubVal(-5) * PrivVal(-7) - PrivVal(3)).val()
+                snap = realrun.snapshot(rt)
+                wd = tempfile.mkdtemp(prefix="c11f-", dir=home)
+                try:
+                    prove_in(rt, wd, home)
+                    validate(R, snap, wd, dict(src=src, inputs=inputs, after_field_switch_to=q, second_prove=bool(rep)), be)
+                    R.count("validated_after_field_switch")
+                    R.case(cell="%s|field-switch" % be, key=(be, "switch", q, rep, src))
+                finally:
+                    shutil.rmtree(wd, ignore_errors=True)
+        rt.backend.set_modulus(p)
     # byte identity of the verifier file for equal public / different private inputs
     for src, vectors in PAIR_PROGRAMS:
         blobs = []
